@@ -390,3 +390,17 @@ Theorem C01_user_posterior : forall (val : Type) (M : Mon), MonLaws M ->
   wf_obj val M (OP ld data pr (mzero M)).
 Proof. intros val M ML ld pr data. exact (mkpost_reduce val M ML ld pr data). Qed.
 Print Assumptions C01_user_posterior.
+
+(* link between the layers: the general entry point  obj(keywords...)  -- JointDistribution._condition,
+   Posterior / Distribution / Likelihood / EvaluatedDensity ._condition with their argument parsing,
+   the "mutable variable is not a conditioning variable" refusal -- called with keywords over the
+   object's current parameters IS the keyword layer on which C01_step / C01_sequence /
+   C01_order_irrelevant / C01_branching are stated (a distribution's own name is not the name of one
+   of its mutable attributes) *)
+Theorem C01_general_entry : forall (val : Type) (M : Mon) (pnamed strict : bool) (o : obj val M) (kw : list (var * val)),
+  wf_obj val M o ->
+  (match o with OD (D d) => ~ In (dname d) (dattrs d) | _ => True end) ->
+  incl (dom kw) (obj_params o) ->
+  obj_cond pnamed strict o [] kw = obj_cond_kw pnamed o kw.
+Proof. intros val M pnamed strict o kw. exact (obj_cond_keywords val M pnamed strict o kw). Qed.
+Print Assumptions C01_general_entry.
